@@ -1,5 +1,6 @@
 import StorageModel.Driver.Common
 import StorageModel.Zql.Unescape
+import StorageModel.Zql.LitFilter
 import StorageModel.Generated.UnescapeTable
 namespace StorageModel.Driver.C11
 open StorageModel StorageModel.Zql StorageModel.Driver
@@ -46,6 +47,53 @@ def evalTwo (form : String) (a b field : Bytes) : Bool :=
   | "in" => field == a || field == b
   | _ => field != a && field != b
 
+/-- `k` pairs `<lit> <s>` -/
+def parsePairs : Nat → List String → Option (List Bytes × List Bytes × List String)
+  | 0, rest => some ([], [], rest)
+  | k + 1, l :: s :: rest => do
+    let lv ← Bytes.ofHex l
+    let sv ← Bytes.ofHex s
+    let (ls, ss, rest') ← parsePairs k rest
+    pure (lv :: ls, sv :: ss, rest')
+  | _, _ => none
+
+/-- a filter in prefix form: `A x y` | `O x y` | `N x` | `C <op> <lit> <s>` | `I <0|1> <k> (<lit> <s>)^k`;
+    returns the filter over the literal texts, the filter over the intended strings, the remaining tokens -/
+def parseFilter : Nat → List String → Option (Filter × Filter × List String)
+  | 0, _ => none
+  | fuel + 1, toks =>
+    match toks with
+    | "A" :: rest => do
+      let (a, a', r1) ← parseFilter fuel rest
+      let (b, b', r2) ← parseFilter fuel r1
+      pure (.and a b, .and a' b', r2)
+    | "O" :: rest => do
+      let (a, a', r1) ← parseFilter fuel rest
+      let (b, b', r2) ← parseFilter fuel r1
+      pure (.or a b, .or a' b', r2)
+    | "N" :: rest => do
+      let (a, a', r1) ← parseFilter fuel rest
+      pure (.not a, .not a', r1)
+    | "C" :: op :: l :: s :: rest => do
+      let o ← parseOp op
+      let lv ← Bytes.ofHex l
+      let sv ← Bytes.ofHex s
+      pure (.cmp o lv, .cmp o sv, rest)
+    | "I" :: neg :: k :: rest => do
+      let (ls, ss, r1) ← parsePairs k.toNat! rest
+      pure (.inl (neg == "1") ls, .inl (neg == "1") ss, r1)
+    | _ => none
+
+/-- `m <s> <filter tokens…> . <field>…` : a whole filter; `spec` chooses the documented semantics over
+    the intended strings instead of the model of listener + transform + EvalBool over the literal texts -/
+def mixed (spec : Bool) (toks : List String) : String :=
+  match parseFilter (toks.length + 1) toks with
+  | some (fl, fs, "." :: flds) =>
+    bits (flds.map fun f => match Bytes.ofHex f with
+      | some fv => if spec then specEval fv fs else runFilter Generated.unescapeTable fl fv
+      | none => false)
+  | _ => "bad-case"
+
 def step (line : String) : String :=
   match splitSp line with
   | ["u", lit, _s] =>
@@ -78,6 +126,7 @@ def step (line : String) : String :=
         | some fv => evalTwo form a b fv
         | none => false)
     | _, _ => "bad-case"
+  | "m" :: _s :: toks => mixed false toks
   | _ => "bad-case"
 
 /-- spec verdict: the same, with the *intended* string `s` instead of the model's reading -/
@@ -105,6 +154,7 @@ def specStep (line : String) : String :=
         | some fv => evalTwo form a b fv
         | none => false)
     | _, _ => "bad-case"
+  | "m" :: _s :: toks => mixed true toks
   | _ => "bad-case"
 
 def run (spec : Bool) : IO Unit := forEachLine (if spec then specStep else step)
